@@ -34,6 +34,13 @@ namespaces to a LoggingRandom class bound to `log` for the duration of a `with` 
         layer = EVQECircuitLayer.random_layer(n_qubits=3, previous_layer=None, random_seed=7)
     log.decisions()   # [["seed", 7], ["choice", 2, 1], ..., ["sample", 3, 2, [2, 0]], ...]
 
+Guard against retry loops that do not end: `RngLog(max_events=N)` raises RngBudgetExceeded at event N+1.
+
+Exhaustive exploration: `patched(log, script=decisions)` installs a ScriptedRandom instead, which takes its
+decisions from the given list (same plain-JSON format) and raises ScriptExhausted(kind, args) at the first
+call beyond the script; `outcomes(kind, args)` enumerates all results of that call, so a depth-first search
+over scripts visits every path of the implementation's decision tree (harness/props/c20.py: exhaustive_paths).
+
 `decisions()` returns plain JSON data (floats as float.hex() strings), `g_stream(decisions, tok)` the Gallina
 literal of type `QV.Evqe.Stream.stream`; `tok` maps a float to its integer token (e.g. `TokenTable.tok`), and
 `value_of_random` says which float the program derives from random() (EVQE: 2*pi*r)."""
